@@ -301,7 +301,7 @@ const vBadCtr = 999
 
 // how long a name index may lag behind its (already converged) table before the replay
 // goes on regardless
-var vIdxWait = 1500 * time.Millisecond
+var vIdxWait = 500 * time.Millisecond
 
 func vRealLease(l int) node.Key {
 	if l == 0 {
